@@ -221,11 +221,12 @@ def annotate(events):
         ev.setdefault("sig", 0)
         ev.setdefault("gs", 0)
         ev.setdefault("bprev", 0)
+        ev.setdefault("rel", 0)
         ev.setdefault("pc", [])
         key = (ev["ph"], ev["pnull"], tuple(ev["s"]), ev["snull"])
         succ = ev["ret"] == "out" and ev["outk"] == "str" and ev["out"] and ev["out"][0] != 42
         ev["kprev"] = seen.get(key, 0)
-        if succ and key not in seen:
+        if (succ or ev.get("rel")) and key not in seen:
             seen[key] = i
         if succ:
             o = (tuple(ev["out"]))
